@@ -245,10 +245,14 @@ func (g *gen) atom() slip.Object {
 		case x < 84:
 			g.hist("atom:keyword")
 			return slip.Symbol(common.Pick(g.r, keySyms))
-		case x < 88:
+		case x < 86:
 			g.hist("atom:type-symbol")
 			return slip.Symbol(common.Pick(g.r, []string{"fixnum", "list", "vector", "symbol"}))
-		case x < 94:
+		case x < 91:
+			// an element that is a symbol is quoted in the load form (repo_fixes/C19-2)
+			g.hist("atom:symbol")
+			return slip.Symbol(common.Pick(g.r, plainSyms))
+		case x < 95:
 			g.hist("atom:nil")
 			return nil
 		default:
